@@ -52,6 +52,22 @@ CHECKS = {
          "decoded with reserved bits set / wrong version / truncated, and every v0/v1 datagram of the message codec is fed to the "
          "matching definition; TLC compares octets and values with the specification.",
     note="trusted: TLC, proto_drv.py; unassigned modulation codes are not generated"),
+ "C12": dict(
+    level="model_checking", design="3 (C12)",
+    technique="TLA+ spec FakeTrx (power events, child management, clock links, port plan) model-checked with TLC; sessions of the real fake_trx.Application validated against FakeTrxTrace",
+    text="TLC explores every POWERON/POWEROFF/RXTUNE/TXTUNE/SETFH history of bounded length on BTS+child/MS+child and checks "
+         "running-iff-last-power, exact clock links, clock-runs-iff-needed, power-off-forgets; command histories on the real "
+         "Application (7 wirings incl. extra and child transceivers) are validated event by event against the same spec, incl. "
+         "which clock sockets get indications and the bound/destination ports.",
+    note="trusted: TLC, faketrx_drv.py (fake sockets, thread stand-in: a tick is one send_clck_ind call), projection of attributes"),
+ "C05": dict(
+    level="model_checking", design="3 (C05)",
+    technique="TLA+ specs FakeTrx+Trxc (command semantics, octet-level request/response grammar) and TrxconIf (trxcon's TRXC client); TLC model checking, trace validation of the real Python transceiver and of trxcon's unmodified trx_if.c, TLC-simulated behaviours replayed",
+    text="Every verb x argument count x boundary argument in four prior state classes, random histories and TLC-simulated behaviours "
+         "are sent to the real CTRL interface through fake sockets; TLC checks exactly-one-reply, reply-to-sender, reply octets and the "
+         "complete state effect.  Every command trxcon's real trx_if.c emits (incl. SETFH with 64 channels) is answered by the Python "
+         "transceiver and the reply is fed back; TLC checks trx_if.c pops the command and the full effect on the transceiver.",
+    note="trusted: TLC, faketrx_drv.py, drv_trxcon.c + osmo_fsm/socket stand-ins; integers limited to 9 digits (TLC 32-bit)"),
 }
 
 NOT_YET = {}
